@@ -207,6 +207,24 @@ def run_graph(ctx, gd, rng, K):
     from y0.dsl import P
 
     g = gg.to_nx(gd)
+    if gd["di"] and rng.random() < 0.25:
+        # history: the caller used the graph object before its last directed edge existed (sub-graphs, districts), then
+        # added that edge through the networkx member; everything below must see the graph as it is now
+        from y0.dsl import Variable as _V
+
+        u_, v_ = gd["di"][-1]
+        g = gg.to_nx(dict(gd, di=gd["di"][:-1]))
+        for _w in range(3):
+            S_ = {_V(n) for n in rng.sample(gd["nodes"], rng.randint(1, len(gd["nodes"])))}
+            with kernel.quiet():
+                g.subgraph(S_)
+                g.ancestors_inclusive(S_)
+                g.districts()
+        g.directed.add_edge(_V(u_), _V(v_))
+        kernel.count("C17:graphs-edited-after-earlier-queries")
+        CTX["history"] = [u_, v_]
+    else:
+        CTX["history"] = None
     ref = gg.to_rg(gd)
     tag = gg.key(gd)
     CTX["ref"] = None
@@ -236,7 +254,8 @@ def run_graph(ctx, gd, rng, K):
         for C in subsets[:6]:
             form = rng.choice(forms)
             kernel.LOG.reset_case({"graph": gd, "T": sorted(v.name for v in T), "C": sorted(v.name for v in C),
-                                   "topo": [v.name for v in topo], "form": form, "tagged": tagged})
+                                   "topo": [v.name for v in topo], "form": form, "tagged": tagged,
+                                   **({"history": CTX["history"]} if CTX.get("history") else {})})
             try:
                 if form == "lemma1":
                     with kernel.quiet():
@@ -261,7 +280,8 @@ def run_graph(ctx, gd, rng, K):
     Al = [v for v in topo if v in A]
     for D in sorted(ref.subgraph(A).districts(), key=lambda d: sorted(map(str, d))):
         kernel.LOG.reset_case({"graph": gd, "A": [v.name for v in Al], "district": sorted(v.name for v in D),
-                               "topo": [v.name for v in topo], "form": "cfactor"})
+                               "topo": [v.name for v in topo], "form": "cfactor",
+                               **({"history": CTX["history"]} if CTX.get("history") else {})})
         # Q[A] of an ancestral set A is P(A): as a plain probability (Lemma 1), as a sum over the rest of the joint,
         # and as a chain-rule product (both Lemma 4)
         from y0.dsl import Product, Sum
@@ -354,6 +374,20 @@ def replay(case):
     gd = case["graph"]
     gd = {"nodes": gd["nodes"], "di": gd["di"], "bi": gd["bi"]}
     g = gg.to_nx(gd)
+    if case.get("history"):
+        # the graph object was used before its last directed edge was added through the networkx member
+        import random as _r
+
+        u_, v_ = case["history"]
+        g = gg.to_nx(dict(gd, di=[e for e in gd["di"] if list(e) != [u_, v_]]))
+        rr = _r.Random(0)
+        for _w in range(6):
+            S_ = {Variable(n) for n in rr.sample(gd["nodes"], rr.randint(1, len(gd["nodes"])))}
+            with kernel.quiet():
+                g.subgraph(S_)
+                g.ancestors_inclusive(S_)
+                g.districts()
+        g.directed.add_edge(Variable(u_), Variable(v_))
     ref = gg.to_rg(gd)
     set_graph(ref, gg.key(gd), 3)
     topo = [Variable(n) for n in case["topo"]]
